@@ -114,6 +114,9 @@ struct Plan {
     /// contract (R16): Verus forbids `requires` on trait-impl methods. The original stays (external_body).
     #[serde(default)]
     inherent_copy: Vec<String>,
+    /// generate entry facts for the string literals of every verified function (R18)
+    #[serde(default)]
+    strlit_facts: bool,
     /// traits that get an explicit `: Sized` supertrait (R15; implied by their method signatures)
     #[serde(default)]
     trait_sized: Vec<String>,
@@ -208,6 +211,8 @@ struct Ctx<'p> {
 }
 
 struct FnState {
+    body_start: Option<usize>,
+    strlits: Vec<String>,
     rename_self: bool,
     decl: bool,
     key: String,
@@ -358,6 +363,8 @@ impl<'p> Ctx<'p> {
             }
         }
         self.fn_stack.push(FnState {
+            body_start: block.map(|b| br(b.span()).0),
+            strlits: Vec::new(),
             rename_self: mut_self,
             decl: block.is_none(),
             key,
@@ -372,6 +379,25 @@ impl<'p> Ctx<'p> {
 
     fn leave_fn(&mut self, whole: (usize, usize)) {
         let f = self.fn_stack.pop().unwrap();
+        if self.plan.strlit_facts && !f.external && !f.strlits.is_empty() {
+            if let Some(bs) = f.body_start {
+                // ground facts about every string literal of the function (content of `reveal_strlit`, spelled out so
+                // that the solver can tell literals apart)
+                let mut t = String::from("\n    proof { // generated: string-literal facts (R18)\n");
+                for l in &f.strlits {
+                    let chars: Vec<char> = l.chars().collect();
+                    let lit = format!("{:?}", l);
+                    t.push_str(&format!("        reveal_strlit({lit}); assert({lit}@.len() == {}", chars.len()));
+                    for (i, c) in chars.iter().enumerate() {
+                        t.push_str(&format!(" && {lit}@[{i}] == {:?}", c));
+                    }
+                    t.push_str(");\n");
+                }
+                t.push_str("    }\n");
+                self.insert(bs + 1, t);
+                self.out.log.push(format!("{}:{} R18 {} entry facts for {} string literals", short(&self.plan.file), self.line_of(bs), f.key, f.strlits.len()));
+            }
+        }
         if let Some(c) = &f.contract {
             for k in c.loops.keys() {
                 let n: usize = k.parse().unwrap_or(usize::MAX);
@@ -791,7 +817,19 @@ impl<'ast, 'p> Visit<'ast> for Ctx<'p> {
         visit::visit_expr_match(self, m);
     }
 
+    fn visit_lit_str(&mut self, l: &'ast syn::LitStr) {
+        if let Some(f) = self.fn_stack.last_mut() {
+            let v = l.value();
+            if !f.strlits.contains(&v) && v.chars().count() <= 40 {
+                f.strlits.push(v);
+            }
+        }
+    }
+
     fn visit_expr_lit(&mut self, l: &'ast syn::ExprLit) {
+        if let syn::Lit::Str(ls) = &l.lit {
+            self.visit_lit_str(ls);
+        }
         if let syn::Lit::ByteStr(b) = &l.lit {
             if self.in_verified_fn() {
                 let (s, e) = br(l.span());
@@ -1388,6 +1426,32 @@ fn main() {
             match brace {
                 Some(b) => cx.insert(b + 1, format!("\n{}\n", t)),
                 None => cx.out.errors.push(format!("inject: `{}` is not a trait or impl", key)),
+            }
+        }
+        if let syn::Item::Macro(m) = item {
+            // R6 inside macro_rules bodies (token level: the body is not parsed as Rust by syn)
+            fn walk(ts: proc_macro2::TokenStream, out: &mut Vec<(usize, usize, String)>) {
+                for t in ts {
+                    match t {
+                        proc_macro2::TokenTree::Group(g) => walk(g.stream(), out),
+                        proc_macro2::TokenTree::Ident(i) => {
+                            let n = i.to_string();
+                            if n == "int" || n == "nat" {
+                                let r = i.span().byte_range();
+                                out.push((r.start, r.end, format!("{}_", n)));
+                            }
+                        }
+                        _ => {}
+                    }
+                }
+            }
+            let mut hits = Vec::new();
+            walk(m.mac.tokens.clone(), &mut hits);
+            for (a, b, t) in hits {
+                if b > a {
+                    cx.replace(a, b, vec![Part::Lit(t)]);
+                    cx.out.log.push(format!("{}:{} R6 identifier renamed inside macro body (Verus keyword)", short(&plan.file), cx.line_of(a)));
+                }
             }
         }
         cx.visit_item(item);
